@@ -312,6 +312,74 @@ fn generations(seed: u64) -> RunOut {
     RunOut { events: evs.into_iter().map(|e| e.2).collect(), result, done: c0.done() && c1.done() && c2.done(), panicked: sim.nodes[c].panicked }
 }
 
+/// One request at a time: the client knows ONE peer, which answers the bootstrap and then falls silent. Every lookup sends
+/// exactly one request. Four lookups started together fill the in-flight table (capacity 4) with requests that all expire together;
+/// after a quiet second the table is emptied in one go; six more lookups follow. No (transaction id, address) pair is used twice.
+fn single_file(seed: u64) -> RunOut {
+    let mut sim = Sim::new(seed ^ 0x51F, NetCfg { lat_min_ms: 10, lat_max_ms: 10, ..Default::default() });
+    sim.record = true;
+    let ids: Vec<[u8; 20]> = vec![crypto::sha1(&[7u8, 44])];
+    let silent = Rc::new(std::cell::Cell::new(false));
+    let s2 = silent.clone();
+    let net = FakeNet::install(&mut sim, &ids, Box::new(move |_, _, _| if s2.get() { Reply::Silent } else { Reply::Default }));
+    let c = sim.add_node(NodeOpts::client(private_ip(5), &net.bootstrap()));
+    sim.run_for(2500);
+    silent.set(true);
+    sim.watch = Some(c);
+    let caddr = sim.nodes[c].addr;
+    let log0 = sim.log.len();
+    let mut calls = vec![];
+    let mut caps = vec![];
+    // (all four at the same instant: they expire between the same two ticks)
+    // (top the table up to exactly its capacity within a tenth of a second: everything in it expires before the table is
+    // looked at again with all of it expired)
+    sim.run_for(700);
+    let mut k = 0u8;
+    for _ in 0..4 {
+        let room = sim.snapshot(c).map(|s| s.inflight.capacity.max(4).saturating_sub(s.inflight.entries.len())).unwrap_or(0);
+        if room == 0 {
+            break;
+        }
+        for _ in 0..room {
+            calls.push(sim.call_get(c, GetKind::Peers, crypto::sha1(&[b's', k]), "s"));
+            k += 1;
+        }
+        sim.flush();
+    }
+    sim.poke(c);
+    sim.run_for(20);
+    if let Some(s) = sim.snapshot(c) {
+        caps.push(json!([s.inflight.entries.len(), s.inflight.capacity]));
+    }
+    sim.run_for(1000);
+    if let Some(s) = sim.snapshot(c) {
+        caps.push(json!([s.inflight.entries.len(), s.inflight.capacity]));
+    }
+    for k in 0..6u8 {
+        calls.push(sim.call_get(c, GetKind::Peers, crypto::sha1(&[b't', k]), "t"));
+        sim.poke(c);
+        sim.run_for(100);
+    }
+    sim.run_for(2000);
+    let now = sim.now_ns();
+    for call in calls.iter_mut() {
+        call.poll(now);
+    }
+    let mut evs: Vec<(u64, u64, Value)> = vec![];
+    for r in &sim.log[log0..] {
+        if r.from == caddr {
+            if let Some(m) = &r.msg {
+                if m.is_request() {
+                    evs.push((r.sent_ns, 1, json!({"e":"send","tid":m.tid_u32().unwrap_or(0),"to":r.to.to_string(),"t":(r.sent_ns - sim.start_ns) / MS})));
+                }
+            }
+        }
+    }
+    evs.sort_by_key(|e| (e.0, e.1));
+    let items: usize = calls.iter().map(|c| c.items.len()).sum();
+    RunOut { events: evs.into_iter().map(|e| e.2).collect(), result: format!("items:{items} table:{}", serde_json::to_string(&caps).unwrap_or_default()), done: calls.iter().all(|c| c.done()), panicked: sim.nodes[c].panicked }
+}
+
 pub fn run(args: &Args) -> i32 {
     let seed = args.u64("seed", 1);
     let mut out = Out::create(&args.str("out", "/verif/work/C09/trace.ndjson"));
@@ -355,6 +423,16 @@ pub fn run(args: &Args) -> i32 {
         }
         events += r.events.len() as u64;
         out.line(&json!({"e":"end","b":b,"done":r.done,"panicked":r.panicked,"same_result":r.result == "h2:0","expect_same":true,"result":r.result,"baseline":"h2:0"}));
+        b += 1;
+    }
+    for g in 0..2u64 {
+        let r = single_file(seed.wrapping_add(g * 31));
+        out.line(&json!({"e":"reset","b":b,"plan":{"scenario":"single_file","k":g}}));
+        for e in &r.events {
+            out.line(e);
+        }
+        events += r.events.len() as u64;
+        out.line(&json!({"e":"end","b":b,"done":r.done,"panicked":r.panicked,"same_result":r.result.starts_with("items:0"),"expect_same":true,"result":r.result,"baseline":"items:0"}));
         b += 1;
     }
     out.finish();
